@@ -133,6 +133,12 @@ fn corpus() -> Vec<String> {
         "return { [`bbbbbbbbbbbbbbbbbbbbbbbbbbbbbbbbbbbbbbbbbbbbbbbbbbbbbbbbbbbbbbbbbbbbbbbb`] = 1 }",
         "local t = {}\nreturn t['cccccccccccccccccccccccccccccccccccccccc' .. 'cccccccccccccccccccccccccccccccccccccccc']",
         "return f[`dddddddddddddddddddddddddddddddddddddddddddddddddddddddddddddddddddddddd`](1)",
+        // keys that are letters but not ASCII (never identifiers), as index and as table key
+        "local t = {}\nt['cl\u{e9}'] = 1\nreturn t['cl\u{e9}'], { ['\u{e8}'] = 1, ['na\u{ef}ve'] = 2, ['\u{65e5}\u{672c}'] = 3 }",
+        // comments several lines apart in front of a statement that a rule removes (the comments move to the next token)
+        "-- first\n\n\n\n-- second\ndo end\nprint(1)", "-- a\n\n\n-- b\n\n\n\n-- c\nlocal unused = 1\nreturn 2",
+        "-- a\n\n\n-- b\ntype Unused = number\nprint(1)", "print(0)\n-- a\n\n\n\n\n-- b\ndo end",
+        "--[[ a\n\n]]\n\n\n-- b\ndo end -- c\n\n\n-- d\nprint(1)",
         // last statements and last tokens of every kind (rules append to / read the last token of a file)
         "return", "do return end", "local function f() return end\nreturn", "while true do break end", "return ...",
         "return `hello {name}!`", "return `tail`;", "return f()", "return function() end", "return {}", "return (1)",
@@ -254,6 +260,7 @@ fn main() {
                     "{ rule: \"append_text_comment\", text: \"generated\", location: \"end\" }, \"remove_spaces\"",
                     "{ rule: \"append_text_comment\", text: \"generated\", location: \"end\" }",
                     "\"remove_interpolated_string\", \"compute_expression\"",
+                    "\"remove_empty_do\", \"remove_unused_variable\", \"remove_types\", \"convert_index_to_field\"",
                     "\"remove_compound_assignment\", { rule: \"append_text_comment\", text: \"two\\nlines\", location: \"end\" }, \"remove_spaces\"",
                 ] {
                     let config = format!("{{ generator: {}, rules: [{}] }}", generator, rules);
